@@ -445,7 +445,10 @@ class ContinuousJsrun(AgentSchedulingComponent):
             # partition id becomes a part of a co-locate tag
             # NOTE: the nodes of a partition are not known at this point, so
             #       the partition itself does not constrain the node selection
-            colo_tag = str(partition_id) + ('' if not colo_tag else '_%s' % colo_tag)
+            #       - and the bare partition id is not a tag of its own (it would
+            #       collide with an application tag of the same value)
+            if colo_tag is not None:
+                colo_tag = '%s_%s' % (partition_id, colo_tag)
         task_partition_id = None
 
         # what remains to be allocated?  all of it right now.
